@@ -5,8 +5,18 @@
    critical section (arun over lists of aop = all interleavings of updateState, getState,
    any number of watchers' two steps, and cancellations); part B = the addrConn state
    machine emitting updates into the balancer wrapper's FIFO (brun over lists of bop = all
-   interleavings of Connect, dial outcomes, transport close, back-off expiry / reset,
-   SubConn.Shutdown, ClientConn.Close and serializer deliveries). *)
+   interleavings of Connect, dial outcomes, connection loss / GOAWAY (BServerClose g), back-off
+   expiry / reset, SubConn.Shutdown, ClientConn.Close, address updates, serializer deliveries
+   and - when client-side health checking is configured, stBi true - the health checker's
+   reports (BHealth k: 1 SERVING, 0 not serving, 2 stream error, 3 Unimplemented) and the end
+   of its retry back-off (BHBackoff)).  stB0 = stBi false: no health checking.
+   NOTE (C30_health_*_note): client-side health checking is not among the event kinds C30
+   quantifies over; a health-managed sub-channel follows gRFC A17 (TRANSIENT_FAILURE -> READY /
+   CONNECTING directly), which is modelled, compared by correspondence and stated by the
+   *_health theorems; the sentence "reaches READY only from CONNECTING and leaves
+   TRANSIENT_FAILURE only to IDLE after backoff or to SHUTDOWN" is proved for sub-channels
+   without health checking (C30_ready_only_from_connecting, C30_tf_left_only_after_backoff_or_shutdown)
+   and for every step taken while no checker manages the state (C30_strict_unless_health_managed). *)
 From Coq Require Import List ZArith Bool.
 From VLib Require Import Codec.
 From VModel Require Import ConnState.
@@ -64,15 +74,37 @@ Print Assumptions C30_false_only_if_cancelled.
 
 (* ---- sub-channel (addrConn) ---- *)
 (* "subchannel states only take allowed transitions": the sequence of ALL updates a
-   sub-channel ever emits, from IDLE, is a chain of allowed transitions ... *)
+   sub-channel ever emits, from IDLE, is a chain of allowed transitions (no client-side
+   health checking) ... *)
 Theorem C30_subchannel_transitions_allowed : forall l, chain_ok 0 (hist (brun stB0 l)) = true.
 Proof. exact ac_transitions_allowed. Qed.
 Print Assumptions C30_subchannel_transitions_allowed.
 
+(* ... with health checking configured, a chain of the relation extended by what the health
+   checker may do (TRANSIENT_FAILURE -> READY / CONNECTING) ... *)
+Theorem C30_allowedR_means : forall f o n, allowedR f o n = true <->
+  allowed o n = true \/ (f = true /\ o = 3 /\ (n = 2 \/ n = 1)).
+Proof. exact allowedR_spec. Qed.
+Print Assumptions C30_allowedR_means.
+Theorem C30_subchannel_transitions_allowed_health : forall h l, chain_okR h 0 (hist (brun (stBi h) l)) = true.
+Proof. exact ac_transitions_allowed_health. Qed.
+Print Assumptions C30_subchannel_transitions_allowed_health.
+
+(* ... and the extension is used only while the health checker manages the state (health
+   checking configured AND a transport present): any other step - before the connection
+   exists, during the connection back-off, after the connection is lost - emits updates that
+   continue the un-extended chain, with IDLE after TRANSIENT_FAILURE only when the back-off
+   ends (idle_rule false) *)
+Theorem C30_strict_unless_health_managed : forall h l o, let b := brun (stBi h) l in
+  o <> BDeliver -> hmanaged b = false ->
+  exists e, hist (bstep b o) = hist b ++ e /\ chain_ok (ast b) e = true /\ idle_rule false (ast b) e o = true.
+Proof. exact strict_unless_health_managed. Qed.
+Print Assumptions C30_strict_unless_health_managed.
+
 (* ... and per step: READY only from CONNECTING by a successful dial; TRANSIENT_FAILURE is
    left only to IDLE by the back-off timer / ResetConnectBackoff or to SHUTDOWN by
-   Shutdown / Close (o ranges over every modelled event, UpdateAddresses included);
-   SHUTDOWN is final *)
+   Shutdown / Close (o ranges over every modelled event, UpdateAddresses, GOAWAY and the
+   health events - which do nothing without health checking - included); SHUTDOWN is final *)
 Theorem C30_ready_only_from_connecting : forall l o, let b := brun stB0 l in
   ast b <> 2 -> ast (bstep b o) = 2 -> ast b = 1 /\ o = BDial true.
 Proof. exact ready_only_from_connecting. Qed.
@@ -84,6 +116,69 @@ Theorem C30_tf_left_only_after_backoff_or_shutdown : forall l o, let b := brun s
 Proof. exact tf_exits. Qed.
 Print Assumptions C30_tf_left_only_after_backoff_or_shutdown.
 
+(* the same two sentences with client-side health checking: READY is reached by a successful
+   dial only when no health checking is configured, otherwise by the checker's report SERVING /
+   Unimplemented from CONNECTING or from TRANSIENT_FAILURE; TRANSIENT_FAILURE is left as above,
+   or - only while the checker manages the state - to READY (SERVING / Unimplemented), to
+   CONNECTING (the checker retries its stream: at once after a stream error if a response had
+   been received, else when its back-off ends), to IDLE when the connection is lost / GOAWAY *)
+Theorem C30_ready_reached_health : forall h l o, let b := brun (stBi h) l in
+  ast b <> 2 -> ast (bstep b o) = 2 ->
+  (ast b = 1 /\ o = BDial true /\ hcf b = false) \/
+  (hmanaged b = true /\ (ast b = 1 \/ ast b = 3) /\ (o = BHealth 1 \/ o = BHealth 3)).
+Proof. exact ready_from_health. Qed.
+Print Assumptions C30_ready_reached_health.
+
+Theorem C30_tf_left_health : forall h l o, let b := brun (stBi h) l in ast b = 3 -> ast (bstep b o) <> 3 ->
+  (ast (bstep b o) = 0 /\ (o = BTimer \/ o = BReset)) \/ (ast (bstep b o) = 4 /\ (o = BShutdown \/ o = BClose)) \/
+  (hmanaged b = true /\
+   ((ast (bstep b o) = 2 /\ (o = BHealth 1 \/ o = BHealth 3)) \/
+    (ast (bstep b o) = 1 /\ (o = BHealth 2 \/ o = BHBackoff)) \/
+    (ast (bstep b o) = 0 /\ exists g, o = BServerClose g))).
+Proof. exact tf_exits_health. Qed.
+Print Assumptions C30_tf_left_health.
+
+(* NOTES, outside C30's quantifier (client-side health checking is not one of its event kinds;
+   gRFC A17 behaviour): a sub-channel whose server reported NOT_SERVING and then SERVING goes
+   CONNECTING, TRANSIENT_FAILURE, READY; after a health stream error it goes TRANSIENT_FAILURE ->
+   CONNECTING when the checker's back-off ends; on the trace the driver replays on the real code
+   (case 9) every clause holds *)
+Theorem C30_health_tf_to_ready_note : exists l, let b := brun (stBi true) l in
+  ast b = 3 /\ ast (bstep b (BHealth 1)) = 2 /\ hist (bstep b (BHealth 1)) = [1; 3; 2].
+Proof. exact health_tf_to_ready_note. Qed.
+Print Assumptions C30_health_tf_to_ready_note.
+Theorem C30_health_tf_to_connecting_note : exists l, let b := brun (stBi true) l in
+  ast b = 3 /\ ast (bstep b BHBackoff) = 1.
+Proof. exact health_tf_to_connecting_note. Qed.
+Print Assumptions C30_health_tf_to_connecting_note.
+Theorem C30_health_managed_transitions_note : exists cfg ops obs, cfg_wf cfg = true /\
+  run cfg ops = Some obs /\ holds_b cfg ops obs = true /\ all_fails (clauses cfg ops obs) = [] /\
+  obs = [[1;1;1;1;0]; [0;1;1;1]; [1;3;3;3;1]; [1;2;2;2;1]].
+Proof. exact health_managed_transitions_note. Qed.
+Print Assumptions C30_health_managed_transitions_note.
+
+(* a health checker exists only for a present transport of a health-checked sub-channel, and
+   without one its reports change nothing (setConnectivityState drops reports for a transport
+   that is no longer current) *)
+Theorem C30_no_checker_without_transport : forall h l, let b := brun (stBi h) l in
+  hph b <> 0 -> tr b = true /\ hcf b = true.
+Proof. exact no_checker_without_transport. Qed.
+Print Assumptions C30_no_checker_without_transport.
+Theorem C30_health_report_dropped_without_checker : forall b k, hph b = 0 ->
+  bstep b (BHealth k) = b /\ bstep b BHBackoff = b.
+Proof. exact health_report_dropped_without_checker. Qed.
+Print Assumptions C30_health_report_dropped_without_checker.
+
+(* GOAWAY (g = true) or a lost connection (g = false): a READY sub-channel goes IDLE, drops its
+   transport and stops its health checker; a second such event changes nothing; both are the
+   same step *)
+Theorem C30_goaway_ready_to_idle : forall h l g, let b := brun (stBi h) l in
+  ast b = 2 -> let b' := bstep b (BServerClose g) in
+  ast b' = 0 /\ tr b' = false /\ hph b' = 0 /\ bstep b' (BServerClose g) = b' /\
+  bstep b (BServerClose g) = bstep b (BServerClose (negb g)).
+Proof. exact server_close_ready_to_idle. Qed.
+Print Assumptions C30_goaway_ready_to_idle.
+
 (* in particular an address update (SubConn.UpdateAddresses -> addrConn.updateAddrs) during the
    back-off does not restart the connection: the step changes nothing *)
 Theorem C30_update_addrs_does_not_end_backoff : forall b fresh, ast b = 3 \/ ast b = 0 \/ ast b = 4 ->
@@ -91,25 +186,26 @@ Theorem C30_update_addrs_does_not_end_backoff : forall b fresh, ast b = 3 \/ ast
 Proof. exact upd_addrs_not_connecting. Qed.
 Print Assumptions C30_update_addrs_does_not_end_backoff.
 
-Theorem C30_subchannel_shutdown_final : forall l o, let b := brun stB0 l in ast b = 4 -> ast (bstep b o) = 4.
+Theorem C30_subchannel_shutdown_final : forall h l o, let b := brun (stBi h) l in ast b = 4 -> ast (bstep b o) = 4.
 Proof. exact shutdown_is_final. Qed.
 Print Assumptions C30_subchannel_shutdown_final.
 
 (* "Subchannel state updates reach the LB policy in the order they happened": what the LB
    policy has received is a prefix of what was emitted, and while the balancer wrapper is
    open nothing is lost (received ++ queued = emitted) *)
-Theorem C30_lb_delivery_in_order : forall l, let b := brun stB0 l in
+Theorem C30_lb_delivery_in_order : forall h l, let b := brun (stBi h) l in
   (exists rest, hist b = dl b ++ rest) /\ (lbopen b = true -> dl b ++ q b = hist b).
 Proof. exact lb_delivery_in_order. Qed.
 Print Assumptions C30_lb_delivery_in_order.
 
 (* "none arrive after the subchannel is shut down" *)
-Theorem C30_nothing_delivered_after_shutdown : forall l pre post,
-  dl (brun stB0 l) = pre ++ 4 :: post -> post = [].
+Theorem C30_nothing_delivered_after_shutdown : forall h l pre post,
+  dl (brun (stBi h) l) = pre ++ 4 :: post -> post = [].
 Proof. exact nothing_delivered_after_shutdown. Qed.
 Print Assumptions C30_nothing_delivered_after_shutdown.
 
-(* The executable predicate evaluated on implementation traces holds on every model trace. *)
+(* The executable predicate evaluated on implementation traces (every clause) holds on every
+   model trace, health checking and GOAWAY histories included. *)
 Theorem C30_holds_on_every_model_trace : forall cfg ops, cfg_wf cfg = true ->
   exists obs, run cfg ops = Some obs /\ holds_b cfg ops obs = true.
 Proof. exact model_trace_holds. Qed.
@@ -119,12 +215,19 @@ Print Assumptions C30_holds_on_every_model_trace.
    CONNECTING, TRANSIENT_FAILURE, IDLE (after the back-off), CONNECTING, READY, IDLE (server
    closed), SHUTDOWN and the LB policy receives exactly that; an address update during the
    back-off is not reported, one on a READY sub-channel restarts it (READY -> CONNECTING), and
-   a Shutdown racing with the end of the back-off (op 9) delivers SHUTDOWN only *)
+   a Shutdown racing with the end of the back-off (op 9) delivers SHUTDOWN only; GOAWAY moves
+   READY to IDLE once; with health checking: connected (nothing reported), SERVING (READY),
+   stream error after a response (TRANSIENT_FAILURE, CONNECTING at once), error without a
+   response (TRANSIENT_FAILURE, checker back-off), back-off end (CONNECTING), Unimplemented
+   (READY, checker gone), GOAWAY (IDLE) *)
 Example C30_witness :
   run [0; 1] [[3;0;0]; [1;1]] = Some [[0; 2]; [1; 3]] /\
-  dl (brun stB0 [BConnect; BDial false; BTimer; BConnect; BDial true; BServerClose; BShutdown;
+  dl (brun stB0 [BConnect; BDial false; BTimer; BConnect; BDial true; BServerClose false; BShutdown;
                  BDeliver; BDeliver; BDeliver; BDeliver; BDeliver; BDeliver; BDeliver]) = [1; 3; 0; 1; 2; 0; 4] /\
   run [1] [[1]; [2;0]; [8;0]; [4]; [1]; [2;1]; [8;1]; [8;0]; [2;0]; [9]; [7]] =
-    Some [[1;1;1;1]; [1;3;3;3]; [0;3;3]; [1;0;0;0]; [1;1;1;1]; [1;2;2;2]; [0;2;2]; [1;1;1;1]; [1;3;3;3]; [1;4;4;3]; [0;4;3]] /\
-  cfg_wf [0; 1] = true /\ cfg_wf [1] = true.
+    Some [[1;1;1;1;0]; [1;3;3;3;0]; [0;3;3;0]; [1;0;0;0;0]; [1;1;1;1;0]; [1;2;2;2;0]; [0;2;2;0]; [1;1;1;1;0]; [1;3;3;3;0]; [1;4;4;3;0]; [0;4;3;0]] /\
+  run [1; 0] [[1]; [2;1]; [12]; [12]; [3]] = Some [[1;1;1;1;0]; [1;2;2;2;0]; [1;0;0;0;0]; [0;0;0;0]; [0;0;0;0]] /\
+  run [1; 1] [[1]; [2;1]; [10;1]; [10;2]; [10;2]; [11]; [10;3]; [10;0]; [12]] =
+    Some [[1;1;1;1;0]; [0;1;1;1]; [1;2;2;2;1]; [2;3;1;1;1;1]; [1;3;3;3;2]; [1;1;1;1;1]; [1;2;2;2;0]; [0;2;2;0]; [1;0;0;0;0]] /\
+  cfg_wf [0; 1] = true /\ cfg_wf [1] = true /\ cfg_wf [1; 1] = true.
 Proof. vm_compute. repeat split; reflexivity. Qed.
